@@ -67,6 +67,9 @@ import (
 // ---------------------------------------------------------------- specs
 
 type reqSpec struct {
+	xc     bool // forced schedule: the handler closes the server-side connection from outside before it writes
+	sb     int  // forced schedule: the handler sets SO_SNDBUF of the server-side connection
+	ob     bool // forced schedule: the handler reports the conn's write backlog right after its body write
 	rid    int
 	v      string   // "10" | "11"
 	conn   []string // Connection header lines
@@ -98,6 +101,9 @@ type hist struct {
 	slow     int
 	seg      bool
 	to0      bool
+	xclose   int    // raw: 1 + index of the request whose handler closes the server-side connection from outside (0: none)
+	sndbuf   int    // raw: SO_SNDBUF the handler of request 0 sets on the server-side connection (0: unchanged)
+	short    string // raw: observed write backlogs "rid:left,…" (echoed to the model)
 	poolMax  int    // nbcli: MaxConnsPerHost of the Client (0: 3)
 	abortAt  int    // raw: 1 + index of the request after sending which the client closes the connection without reading (0: none)
 	cbPanic  int    // nbc: 1 + index of the request whose callback panics when it is invoked (0: none)
@@ -370,6 +376,10 @@ func genHist(g *lp.Gen, cid int, thorough bool) {
 		genAbort(g, cid)
 		return
 	}
+	if g.Chance(1, 12) {
+		genForced(g, cid)
+		return
+	}
 	n := 1 + g.Intn(8)
 	if g.Chance(1, 4) {
 		n = 1 + g.Intn(3)
@@ -503,6 +513,31 @@ func genNbx(g *lp.Gen, cid int) {
 		emitQ(g, cid, r)
 		rid++
 	}
+}
+
+// genForced: forced schedules that are replayed to the model step by step.  (a) xclose: the handler of request k closes
+// the server-side connection from outside (an external close between two pipelined requests): the requests in front are
+// answered, nothing afterwards.  (b) sndbuf: a tiny SO_SNDBUF and a client that reads late make Conn.Write take only part
+// of a large response; the handler reports the backlog it sees, the model replays the short write and the later flush.
+func genForced(g *lp.Gen, cid int) {
+	if g.Chance(1, 2) {
+		n := 2 + g.Intn(4)
+		k := 1 + g.Intn(n-1)
+		g.P("K %d raw sched=ps slow=0 seg=0 to0=0 xclose=%d", cid, k+1)
+		for i := 0; i < n; i++ {
+			r := &reqSpec{rid: i, v: "11", method: "GET", st: 200, sz: g.PickInt(0, 40, 900, 5000), fr: g.Pick("cl", "au", "ch"), w: 1 + g.Intn(2), sync: i <= k}
+			if i == k {
+				r.d = 2
+			}
+			emitQ(g, cid, r)
+		}
+		return
+	}
+	g.P("K %d raw sched=ps slow=%d seg=0 to0=0 sndbuf=4096", cid, 120+g.Intn(100))
+	emitQ(g, cid, &reqSpec{rid: 0, v: "11", method: "GET", st: 200, sz: 20, fr: "cl", w: 1})
+	emitQ(g, cid, &reqSpec{rid: 1, v: "11", method: "GET", st: 200, sz: g.PickInt(600000, 1000000, 400000), fr: "cl", w: 1})
+	emitQ(g, cid, &reqSpec{rid: 2, v: "11", method: "GET", st: 200, sz: g.PickInt(30, 70000), fr: g.Pick("cl", "au"), w: 1})
+	emitQ(g, cid, &reqSpec{rid: 3, v: "11", conn: []string{"close"}, method: "GET", st: 200, sz: 9, fr: "cl", w: 1, sync: true})
 }
 
 // genAbort: k exchanges, then a request whose answer the client does not wait for (it closes the connection at once)
@@ -816,6 +851,27 @@ func (h *hist) checkHandlers() {
 	}
 }
 
+// srvConns: server-side connections by peer address (engine OnOpen/OnClose) — the forced-schedule histories reach the
+// connection "from outside" the response path through it; shortObs: write backlog seen right after a body write
+var (
+	srvConns sync.Map
+	shortObs sync.Map
+)
+
+func srvNbio(addr string) (net.Conn, *nbio.Conn) {
+	v, ok := srvConns.Load(addr)
+	if !ok {
+		return nil, nil
+	}
+	c := v.(net.Conn)
+	inner := c
+	if hc, ok := c.(*nbhttp.Conn); ok {
+		inner = hc.Conn
+	}
+	nbc, _ := inner.(*nbio.Conn)
+	return c, nbc
+}
+
 func handler(w http.ResponseWriter, r *http.Request) {
 	// /c/<cid>/r/<rid>?st=&sz=&fr=&w=&fl=&d=
 	p := strings.Split(r.URL.Path, "/")
@@ -831,6 +887,26 @@ func handler(w http.ResponseWriter, r *http.Request) {
 	hlogAdd(cid, rid)
 	inflEnter(cid)
 	defer inflLeave(cid)
+	if n := geti("sb"); n > 0 {
+		if c, _ := srvNbio(r.RemoteAddr); c != nil {
+			if wb, ok := c.(interface{ SetWriteBuffer(int) error }); ok {
+				_ = wb.SetWriteBuffer(n)
+			}
+		}
+	}
+	if q.Get("xc") == "1" {
+		// an external close: not the close decision of any request, issued on the connection object itself
+		if c, _ := srvNbio(r.RemoteAddr); c != nil {
+			_ = c.Close()
+		}
+	}
+	if q.Get("ob") == "1" {
+		defer func() {
+			if _, nbc := srvNbio(r.RemoteAddr); nbc != nil {
+				shortObs.Store(servedKey(cid, rid), nbc.VerifState().Left)
+			}
+		}()
+	}
 	var rb []byte
 	if r.Body != nil {
 		rb, _ = io.ReadAll(r.Body)
@@ -919,6 +995,8 @@ func getServer(c cellT) (*server, error) {
 		conf.Addrs = []string{"127.0.0.1:0"}
 	}
 	eng := nbhttp.NewEngine(conf)
+	eng.OnOpen(func(c net.Conn) { srvConns.Store(c.RemoteAddr().String(), c) })
+	eng.OnClose(func(c net.Conn, err error) { srvConns.Delete(c.RemoteAddr().String()) })
 	if err := eng.Start(); err != nil {
 		return nil, err
 	}
@@ -965,7 +1043,17 @@ func (s *server) path(cid int, r *reqSpec) string {
 	if r.fl {
 		b = 1
 	}
-	return fmt.Sprintf("/c/%d/r/%d?st=%d&sz=%d&fr=%s&w=%d&fl=%d&d=%d", cid, r.rid, r.st, r.sz, r.fr, r.w, b, r.d)
+	x := ""
+	if r.xc {
+		x += "&xc=1"
+	}
+	if r.sb > 0 {
+		x += "&sb=" + strconv.Itoa(r.sb)
+	}
+	if r.ob {
+		x += "&ob=1"
+	}
+	return fmt.Sprintf("/c/%d/r/%d?st=%d&sz=%d&fr=%s&w=%d&fl=%d&d=%d%s", cid, r.rid, r.st, r.sz, r.fr, r.w, b, r.d, x)
 }
 
 func reqBody(r *reqSpec) []byte { return lp.Pattern(r.rb, r.rid%256) }
@@ -1395,7 +1483,7 @@ func (s *server) runRaw(h *hist) {
 	}
 	// c10-close: RFC expectation per answered request
 	for i, r := range h.reqs {
-		if i > last || (h.cut >= 0 && i >= h.cut) {
+		if i > last || (h.cut >= 0 && i >= h.cut) || (h.xclose > 0 && i >= h.xclose-2) {
 			break
 		}
 		persist, dom := rfcPersists(r)
@@ -1417,6 +1505,13 @@ func (s *server) runRaw(h *hist) {
 	tee.mu.Lock()
 	h.scanForeign(tee.buf.Bytes())
 	tee.mu.Unlock()
+	var obs []string
+	for _, r := range h.reqs {
+		if v, ok := shortObs.LoadAndDelete(servedKey(h.cid, r.rid)); ok && v.(int) > 0 {
+			obs = append(obs, fmt.Sprintf("%d:%d", r.rid, v.(int)))
+		}
+	}
+	h.short = strings.Join(obs, ",")
 }
 
 // ---------------------------------------------------------------- net/http client (independent, sequential)
@@ -1979,7 +2074,7 @@ func parseCase(lines []string) (*caseT, error) {
 				return nil, fmt.Errorf("bad K line")
 			}
 			cid, _ := strconv.Atoi(f[1])
-			h := &hist{cid: cid, kind: f[2], slow: kvi(f, "slow"), seg: kv(f, "seg") == "1", to0: kv(f, "to0") == "1", failAt: kvi(f, "fail"), dialFail: kvi(f, "dialfail"), dialKind: kv(f, "dialkind"), cbPanic: kvi(f, "cbpanic"), abortAt: kvi(f, "abort"), poolMax: kvi(f, "pool"), res: map[int]*result{}}
+			h := &hist{cid: cid, kind: f[2], slow: kvi(f, "slow"), seg: kv(f, "seg") == "1", to0: kv(f, "to0") == "1", failAt: kvi(f, "fail"), dialFail: kvi(f, "dialfail"), dialKind: kv(f, "dialkind"), cbPanic: kvi(f, "cbpanic"), abortAt: kvi(f, "abort"), poolMax: kvi(f, "pool"), xclose: kvi(f, "xclose"), sndbuf: kvi(f, "sndbuf"), res: map[int]*result{}}
 			switch h.kind {
 			case "raw", "std", "nbc", "nbcli", "nbx":
 			default:
@@ -1997,6 +2092,14 @@ func parseCase(lines []string) (*caseT, error) {
 				return nil, fmt.Errorf("Q without K")
 			}
 			r := parseQ(f)
+			idx := len(h.reqs)
+			r.xc = h.xclose > 0 && idx == h.xclose-1
+			if h.sndbuf > 0 {
+				if idx == 0 {
+					r.sb = h.sndbuf
+				}
+				r.ob = r.sz >= 65536 && r.fr == "cl" && r.w == 1 && r.method == "GET"
+			}
 			h.reqs = append(h.reqs, r)
 		default:
 			return nil, fmt.Errorf("unknown op")
@@ -2008,7 +2111,7 @@ func parseCase(lines []string) (*caseT, error) {
 // freshHist: a copy of the static part of h with empty results — every attempt runs on its own copy, so a client
 // call that never returns (and the goroutine stuck in it) cannot touch what a later attempt or the printer reads
 func freshHist(h *hist, cliEpoll string) *hist {
-	cl := &hist{cid: h.cid, kind: h.kind, slow: h.slow, seg: h.seg, to0: h.to0, dialFail: h.dialFail, dialKind: h.dialKind, cbPanic: h.cbPanic, abortAt: h.abortAt, poolMax: h.poolMax,
+	cl := &hist{cid: h.cid, kind: h.kind, slow: h.slow, seg: h.seg, to0: h.to0, dialFail: h.dialFail, dialKind: h.dialKind, cbPanic: h.cbPanic, abortAt: h.abortAt, poolMax: h.poolMax, xclose: h.xclose, sndbuf: h.sndbuf,
 		failAt: h.failAt, reqs: h.reqs, res: map[int]*result{}, cut: -1, cliEpoll: cliEpoll}
 	for _, r := range h.reqs {
 		cl.res[r.rid] = &result{cb: -1}
@@ -2354,6 +2457,9 @@ func runCase(e *lp.Exec, lines []string) {
 				e.P("> %s lost=%s", stripGot(line), strings.Join(append(lost, "-"), ","))
 			} else if h.kind == "raw" && h.cut >= 0 {
 				e.P("> %s cut=%d", stripGot(line), h.cut)
+			} else if h.kind == "raw" && h.short != "" {
+				e.P("> %s short=%s", stripGot(line), h.short)
+				e.Count("forced", "short-write-observed")
 			} else {
 				e.P("> %s", stripGot(line))
 			}
@@ -2412,7 +2518,7 @@ func stripGot(line string) string {
 	f := strings.Fields(line)
 	out := f[:0]
 	for _, t := range f {
-		if !strings.HasPrefix(t, "got=") && !strings.HasPrefix(t, "lost=") && !strings.HasPrefix(t, "cut=") {
+		if !strings.HasPrefix(t, "got=") && !strings.HasPrefix(t, "lost=") && !strings.HasPrefix(t, "cut=") && !strings.HasPrefix(t, "short=") {
 			out = append(out, t)
 		}
 	}
